@@ -216,7 +216,24 @@ def gen_plan(rng) -> dict:
             if ops[j]["kind"] == ops[i]["kind"]:
                 ops[i]["target"] = dict(ops[j]["target"], pre="earlier")
                 ops[i]["dir_id"] = ops[j].get("dir_id", ops[j]["id"])  # the very same path, directories included
-    return {"recipes": recs, "ops": ops, "xdev": rng.random() < 0.4,
+    xdev = rng.random() < 0.4
+    # the user EDITS a live document in place between two exports of it (a nested attribute: the document object
+    # itself is not assigned to) - own stream, decided after everything else
+    import random as _random
+    import zlib as _zlib
+
+    erng = _random.Random(_zlib.crc32(core.cjson(ops).encode()))
+    seen_docs: set = set()
+    out_ops = []
+    for o in ops:
+        if o["kind"] != "user_rmtree":
+            if o["doc"] in seen_docs and erng.random() < 0.5:
+                out_ops.append({"kind": "user_edit", "doc": o["doc"],
+                                "what": erng.choice(["title", "footnote", "source", "page_header", "any"]),
+                                "rev": len(out_ops)})
+            seen_docs.add(o["doc"])
+        out_ops.append(o)
+    return {"recipes": recs, "ops": out_ops, "xdev": xdev,
             "recovery": True}
 
 
@@ -620,6 +637,26 @@ def _exec_faults(plan, sb, rtflite, conv_mod, arg) -> dict:
             existed = os.path.isdir(d)
             shutil.rmtree(d, ignore_errors=True)
             log.append({"i": i, "kind": "user_rmtree", "skipped": "user action", "removed": existed})
+            continue
+        if op["kind"] == "user_edit":
+            # the simulated user changes a text of the live document in place (nested attribute)
+            d_ = docs[op["doc"]]
+            edited = None
+            if d_ is not None:
+                order_ = {"title": ["rtf_title"], "footnote": ["rtf_footnote"], "source": ["rtf_source"],
+                          "page_header": ["rtf_page_header"]}.get(op["what"], [])
+                for attr in order_ + ["rtf_title", "rtf_footnote", "rtf_source", "rtf_page_header", "rtf_page_footer"]:
+                    comp = getattr(d_, attr, None)
+                    txt = getattr(comp, "text", None) if comp is not None else None
+                    if txt:
+                        try:
+                            new = [str(x) + f" (rev {op['rev']})" for x in (txt if isinstance(txt, (list, tuple)) else [txt])]
+                            comp.text = type(txt)(new) if isinstance(txt, (list, tuple)) else new[0]
+                            edited = attr
+                        except Exception:  # noqa: BLE001 - a component that refuses assignment: no edit then
+                            edited = None
+                        break
+            log.append({"i": i, "kind": "user_edit", "skipped": "user action", "edited": edited})
             continue
         ev = {"i": i, "kind": op["kind"], "recovery": bool(op.get("recovery")), "fault": op["fault"],
               "converter": op["converter"], "target": op["target"], "doc": op["doc"]}
